@@ -163,6 +163,12 @@ impl Server {
         Ok(m)
     }
 
+    /// Make the nth file-system call of the given class on the given kind of file fail once in the
+    /// server process.
+    pub fn arm_fault(&mut self, class: u32, kind: u32, nth: i64, errno: i32) -> bool {
+        self.send(&format!("fail {} {} {} {}", class, kind, nth, errno)) && matches!(self.line(Duration::from_secs(30)), Some(l) if l == "ARMED")
+    }
+
     /// Start a descriptor shortage of `ms` milliseconds in the server process; returns once no
     /// descriptor can be allocated there any more.
     pub fn fd_shortage_begin(&mut self, ms: u64) -> bool {
